@@ -190,6 +190,7 @@ type env struct {
 	mu     sync.Mutex
 	log    []event
 	srvLog []string // non-Info messages logged by the listener (self-test only)
+	prev   [][]byte // datagrams of the previous batch (context of a mis-answered fence)
 
 	fenceN   uint64
 	stopped  atomic.Bool
@@ -216,6 +217,15 @@ func (a audit) LogDisconnectRequest(req *radius.DisconnectRequest, resp *radius.
 }
 
 const liveSession = "sess-1"
+
+// slowSession: a live session whose lookup takes handlerDelay of real time. The listener's socket is a
+// concrete *net.UDPConn whose deadlines run on the real clock, so "the handler is slow" can only be
+// produced with real elapsed time. The delay is part of the STIMULUS; the verdict (reply or no reply)
+// is still decided by fence order, never by a timeout, and on a correct listener a longer delay (load)
+// cannot change it.
+const slowSession = "sess-slow"
+
+var handlerDelay = 2500 * time.Millisecond
 
 // logCore is a zap core that keeps the messages the listener logs (no encoding,
 // no output). Only the self-test reads it: when a lone valid request gets no
@@ -254,6 +264,10 @@ func newEnv(secret []byte) (*env, error) {
 		e.effect("lookup-id:" + id)
 		if id == liveSession {
 			return &radius.SessionInfo{SessionID: liveSession, Username: "alice"}, true
+		}
+		if id == slowSession {
+			time.Sleep(handlerDelay)
+			return &radius.SessionInfo{SessionID: slowSession, Username: "alice"}, true
 		}
 		return nil, false
 	})
@@ -334,7 +348,7 @@ var errWatchdog = fmt.Errorf("fence reply not seen within the watchdog interval"
 
 const fenceTag = "\xfeFENCE\xfe"
 
-const watchdog = 30 * time.Second
+const watchdog = 90 * time.Second
 
 // run sends each datagram followed by its own fence (a known-good
 // Disconnect-Request with a unique session id, hence a unique authenticator),
@@ -342,7 +356,32 @@ const watchdog = 30 * time.Second
 // a time, so replies and log entries between fence i-1 and fence i belong to
 // stimulus i: attribution is by FIFO order only. The watchdog deadline can only
 // turn into a harness error, never into a verdict.
-func (e *env) run(ds [][]byte) ([]observation, error) {
+// fenceErr: a datagram came back that carries the identifier of the valid request (fence) the harness
+// is waiting for - not that of the stimulus before it - and does not verify against it. Whichever of
+// the two requests it answers, it is a response without the request's identifier or without a
+// verifying Response Authenticator. After it replies can no longer be attributed, so the run stops.
+type fenceErr struct {
+	idx      int
+	reply    []byte
+	fence    []byte
+	sequence [][]byte // everything sent in the previous and the current batch up to that fence
+}
+
+func (f *fenceErr) Error() string {
+	return "a valid request was answered with a reply that does not verify against it (reported as violation)"
+}
+
+func (e *env) run(ds [][]byte) ([]observation, error) { return e.runMode(ds, false) }
+
+// runLoose: one stimulus and its fence, attribution without order: everything the listener logged that
+// is not the fence's belongs to the stimulus. Used only after batch attribution failed, i.e. when the
+// listener turned out not to serve datagrams one at a time.
+func (e *env) runLoose(d []byte) (observation, error) {
+	o, err := e.runMode([][]byte{d}, true)
+	return o[0], err
+}
+
+func (e *env) runMode(ds [][]byte, loose bool) ([]observation, error) {
 	obs := make([]observation, len(ds))
 	e.mu.Lock()
 	e.log = e.log[:0]
@@ -380,11 +419,41 @@ func (e *env) run(ds [][]byte) ([]observation, error) {
 			cur++
 			continue
 		}
+		if len(r) >= 20 && r[1] == fences[cur][1] && (len(ds[cur]) < 2 || ds[cur][1] != r[1]) {
+			fe := &fenceErr{idx: cur, reply: r, fence: fences[cur], sequence: append([][]byte{}, e.prev...)}
+			for i := 0; i <= cur; i++ {
+				if ds[i] != nil {
+					fe.sequence = append(fe.sequence, ds[i])
+				}
+				fe.sequence = append(fe.sequence, fences[i])
+			}
+			return obs, fe
+		}
 		obs[cur].Responses = append(obs[cur].Responses, r)
+	}
+	e.prev = e.prev[:0]
+	for i := range ds {
+		if ds[i] != nil {
+			e.prev = append(e.prev, ds[i])
+		}
+		e.prev = append(e.prev, fences[i])
 	}
 	// the last fence's handler has completed (its reply was sent after it): the log is complete
 	e.mu.Lock()
 	defer e.mu.Unlock()
+	if loose {
+		for _, ev := range e.log {
+			switch {
+			case ev.Call != nil && ev.Call.Session != fsess[0]:
+				obs[0].Calls = append(obs[0].Calls, *ev.Call)
+			case ev.Effect != "" && !strings.HasPrefix(ev.Effect, "lookup-id:"+fenceTag):
+				obs[0].Effects = append(obs[0].Effects, ev.Effect)
+			case ev.Panic != "":
+				obs[0].Panic = ev.Panic
+			}
+		}
+		return obs, nil
+	}
 	cur := 0
 	for _, ev := range e.log {
 		switch {
@@ -833,6 +902,14 @@ func families() []family {
 				}
 			}
 		}},
+		{name: "slow-handler", perSecret: true, chunks: 1, gen: func(p, s []byte, _ int, _ bool, emit func(stim)) {
+			// authentic requests for a session whose handler takes handlerDelay of real time: they must be
+			// answered like any other (the property has no "if the handler is quick" clause)
+			for _, id := range []byte{1, 255} {
+				emit(stim{fmt.Sprintf("CoA-Request id %d for the slow session", id), buildRequest(43, id, []attr{{44, []byte(slowSession)}, {11, []byte("gold")}}, s)})
+				emit(stim{fmt.Sprintf("Disconnect-Request id %d for the slow session", id), buildRequest(40, id, []attr{{44, []byte(slowSession)}}, s)})
+			}
+		}},
 		{name: "wrong-secret", chunks: 1, gen: func(p, s []byte, _ int, _ bool, emit func(stim)) {
 			// the same request signed with keys that text-minded handling of the secret would confuse with it
 			flip := clone(s)
@@ -933,6 +1010,7 @@ func TestCheck(t *testing.T) {
 	budget := 60 * time.Second
 	if run.Thorough() {
 		budget = 15 * time.Minute
+		handlerDelay = 6 * time.Second
 	}
 	start := time.Now()
 
@@ -1023,6 +1101,44 @@ func TestCheck(t *testing.T) {
 						ds[i] = batch[i].data
 					}
 					all, err := e.run(ds)
+					if fe, ok := err.(*fenceErr); ok {
+						reportFenceErr(run, e, fe, "coa-listener/"+jb.fam.name, jb.sd.name, batch[fe.idx].desc)
+						fatal.Store("STOP") // a verdict, not a harness fault: the run ends here with the violation
+						return
+					}
+					if err != nil && err != errWatchdog {
+						if _, isFence := err.(*fenceErr); !isFence {
+							// attribution by order failed: the listener does not serve one datagram at a time. Re-run the
+							// batch one stimulus at a time with order-free attribution; only a violation found that way
+							// is reported, otherwise this stays a harness error.
+							found := 0
+							for _, s := range batch {
+								o, err2 := e.runLoose(s.data)
+								if fe, ok := err2.(*fenceErr); ok {
+									reportFenceErr(run, e, fe, "coa-listener/"+jb.fam.name, jb.sd.name, s.desc)
+									found++
+									break
+								}
+								if err2 != nil {
+									break
+								}
+								_, vs := judge(s.data, e.secret, o)
+								for _, v := range vs {
+									rv := report.Violation{Part: "coa-listener/" + jb.fam.name, Kind: v.Kind, Site: "CoAServer.receiveLoop",
+										Detail: v.Detail + " (the listener does not serve datagrams one at a time: \"" + err.Error() + "\"; verdict from a single-stimulus re-run)",
+										Config: jb.sd.name, Trace: []string{"seed " + jb.sd.name, s.desc, "datagram " + hexShort(s.data)},
+										Extra: map[string]any{"secret_hex": hex.EncodeToString(e.secret), "datagram_hex": hex.EncodeToString(s.data)}}
+									classify(&rv)
+									run.Violation(rv)
+									found++
+								}
+							}
+							if found > 0 {
+								fatal.Store("STOP")
+								return
+							}
+						}
+					}
 					if err != nil {
 						fatal.Store(fmt.Sprintf("%v (family %s seed %s, batch of %d starting at: %s; datagram %s)", err, jb.fam.name, jb.sd.name, len(batch), batch[0].desc, hexShort(batch[0].data)))
 						return
@@ -1072,7 +1188,7 @@ func TestCheck(t *testing.T) {
 		}()
 	}
 	wg.Wait()
-	if f := fatal.Load(); f != nil {
+	if f := fatal.Load(); f != nil && f.(string) != "STOP" {
 		run.HarnessError(f.(string))
 	}
 	names := make([]string, 0, len(stats))
@@ -1097,6 +1213,18 @@ func TestCheck(t *testing.T) {
 		fmt.Printf("part coa-listener/%-18s stimuli=%-8d authentic=%-7d %s\n", n, st.n, st.accepted, strings.TrimSpace(note))
 	}
 	os.Exit(run.Finish())
+}
+
+func reportFenceErr(run *report.Run, e *env, fe *fenceErr, part, seedName, desc string) {
+	seq := make([]string, len(fe.sequence))
+	for i, d := range fe.sequence {
+		seq[i] = hex.EncodeToString(d)
+	}
+	run.Violation(report.Violation{Part: part, Kind: "bad-response", Site: "CoAServer.receiveLoop",
+		Detail: fmt.Sprintf("after the stimulus a valid Disconnect-Request with identifier %d was sent; a reply carrying that identifier came back that does not verify against it (reply %s). Either the valid request was answered with another request's reply, or the stimulus was answered under a foreign identifier; the listener's answers depend on earlier requests",
+			fe.fence[1], hexShort(fe.reply)),
+		Config: seedName, Trace: []string{"seed " + seedName, desc, fmt.Sprintf("then valid request %s", hexShort(fe.fence)), fmt.Sprintf("%d datagrams of context (previous and current batch)", len(fe.sequence))},
+		Extra: map[string]any{"secret_hex": hex.EncodeToString(e.secret), "sequence_hex": seq}})
 }
 
 // selfTest: a lone fence must be answered by exactly one verifying NAK. If the
@@ -1170,6 +1298,35 @@ func replay(run *report.Run) int {
 		return 2
 	}
 	defer e.close()
+	if sq, ok := v.Extra["sequence_hex"].([]any); ok && len(sq) > 0 {
+		var ds [][]byte
+		for _, h := range sq {
+			b, _ := hex.DecodeString(fmt.Sprint(h))
+			ds = append(ds, b)
+		}
+		all, err := e.run(ds)
+		if _, ok := err.(*fenceErr); ok {
+			fmt.Printf("VIOLATION property=C15 replay=%s\n  kind=bad-response detail=%v\n", *report.FlagReplay, err)
+			return 1
+		}
+		if err != nil {
+			fmt.Println("HARNESS-ERROR", err)
+			return 2
+		}
+		hit := false
+		for i, d := range ds {
+			_, vs := judge(d, secret, all[i])
+			for _, x := range vs {
+				fmt.Printf("VIOLATION property=C15 replay=%s\n  kind=%s site=CoAServer.receiveLoop datagram#%d detail=%s\n", *report.FlagReplay, x.Kind, i, x.Detail)
+				hit = true
+			}
+		}
+		if hit {
+			return 1
+		}
+		fmt.Println("replay: no violation")
+		return 0
+	}
 	var obs observation
 	if st, _ := v.Extra["selftest"].(bool); st {
 		d = nil
